@@ -520,6 +520,12 @@ where
                 Ok(())
             }
             EVENT_DISCONNECTED => {
+                // Before it is safe to destroy the event, we need to synchronize with whatever
+                // writes the receiver may have done into its state (e.g. it may have removed
+                // its waker before it marked the event as disconnected). The swap above is
+                // `Relaxed`, so without this fence nothing orders those writes before the release.
+                atomic::fence(atomic::Ordering::Acquire);
+
                 // We are the last endpoint remaining, so we will clean up.
                 Err(Disconnected)
             }
